@@ -82,6 +82,30 @@ partial def simpleAct : Action → Bool
   | .multipleActions as => as.all simpleAct
   | _ => false
 
+/-- the output chords (and single keys, as one-element lists) an action can list, through every
+key-producing form -/
+partial def chordsOf : Action → List (List Nat)
+  | .keyCode kc => [[kc]]
+  | .multipleKeyCodes kcs => [kcs]
+  | .holdTap _ hold tap ta _ _ => chordsOf tap ++ chordsOf hold ++ chordsOf ta
+  | .oneShot a _ _ => chordsOf a
+  | .multipleActions as => as.flatMap chordsOf
+  | .tapDance as _ _ => as.flatMap chordsOf
+  | .fork l r _ => chordsOf l ++ chordsOf r
+  | .chords _ chs _ => chs.flatMap fun c => chordsOf c.2
+  | .switch cases => cases.flatMap fun c => chordsOf c.2.1
+  | _ => []
+
+/-- "preferring the last-listed key of a chord over its modifiers", independent of how the table is
+ordered: a repeat forwarded for modifier `e` fails when the held key's own action lists an output
+chord `… e … key` whose last-listed key is a non-modifier that is down at the OS -/
+def modifierPreferred (a : Action) (e : Nat) (down : List Nat) : Option (List Nat × Nat) :=
+  if !Override.isMod e then none else
+  (chordsOf a).findSome? fun c =>
+    match c.getLast? with
+    | some key => if c.dropLast.contains e && !Override.isMod key && down.contains key then some (c, key) else none
+    | none => none
+
 def hasUnmod (k : KState) : Bool :=
   k.customs.any fun l => l.any fun a => match a with | .unmodded .. | .unshifted .. => true | _ => false
 
@@ -115,6 +139,19 @@ def oracle (k : KState) (hist : List KEv) (items : List TItem) : String :=
                 | some kc => if down.contains kc then none else some s!"repeat at {vt} forwarded for key {kc} which is up at the OS"
                 | none => some s!"repeat at {vt} emitted {ev}"
             | _ => none
+          -- single-layer configurations, any action form: the key of a chord before its modifiers
+          let bad : Option String := match bad, emitted with
+            | some b, _ => some b
+            | none, [ev] =>
+              if k.layout.cfg.layers.length == 1 && !hasUnmod k then
+                match (k.layout.cfg.layers[0]!).find? (·.1 == (0, y)), (ev.drop 1).toNat? with
+                | some (_, a), some e =>
+                  match modifierPreferred a e down with
+                  | some (c, key) => some s!"repeat at {vt} for held key {y}: forwarded for modifier {e} of its output chord {c} although the chord's last-listed key {key} is down"
+                  | none => none
+                | _, _ => none
+              else none
+            | none, _ => none
           match bad with
           | some b => some b
           | none =>
@@ -125,11 +162,21 @@ def oracle (k : KState) (hist : List KEv) (items : List TItem) : String :=
               match (k.layout.cfg.layers[0]!).find? (·.1 == (0, y)) with
               | some (_, a) =>
                 let outs := withOverrides k.overrides (keyOutputs k.customs y a)
-                match (if outs.any (fun c => k.ignoreMin ≤ c && c ≤ k.ignoreMax) then none else outs.reverse.find? (down.contains ·)) with
-                | some want =>
-                  if emitted == [s!"d{want}"] then go rest later vt down phys lastRel
-                  else some s!"repeat at {vt} for held key {y}: expected d{want}, got {emitted}"
-                | none => go rest later vt down phys lastRel
+                -- the statement asks for "one of those output keys, preferring the last-listed key of
+                -- a chord over its modifiers": the last-listed non-modifier that is down, or - when
+                -- the forwarded key is a modifier - the last-listed modifier that is down (whether a
+                -- modifier listed after a key that is not part of its chord, as in `(multi x lsft)`,
+                -- may win over that key is left open by the statement; both are accepted)
+                let downOuts := if outs.any (fun c => k.ignoreMin ≤ c && c ≤ k.ignoreMax) then [] else outs.reverse.filter (down.contains ·)
+                match downOuts with
+                | [] => go rest later vt down phys lastRel
+                | first :: _ =>
+                  let wantKey := downOuts.find? (fun c => !Override.isMod c)
+                  let wantMod := downOuts.find? (fun c => Override.isMod c)
+                  let okKey := match wantKey with | some w => emitted == [s!"d{w}"] | none => false
+                  let okMod := match wantMod with | some w => emitted == [s!"d{w}"] | none => false
+                  if okKey || okMod then go rest later vt down phys lastRel
+                  else some s!"repeat at {vt} for held key {y}: expected d{(wantKey.getD first)}, got {emitted}"
               | none => go rest later vt down phys lastRel
             else go rest later vt down phys lastRel
         | [] => some s!"repeat at {vt}: trace ended"
